@@ -1,8 +1,8 @@
 SPECIFICATION Spec
 CONSTANTS
-  MaxObjs = 3
-  BlockSizes = {16, 24}
-  BytesLens = {3, 20, 28}
+  MaxObjs = 4
+  BlockSizes = {16}
+  BytesLens = {3, 28}
   Tampers = {"none", "level", "clsname"}
   ReadVariant = "sound"
   AsymClass = ""
